@@ -370,10 +370,11 @@ impl Local {
     }
 
     pub(crate) fn schedule_collection(&self) {
+        // Do not repin here, even while collecting: this is reached from destructors (a dropped
+        // `Rc` flushes periodically, a full bag is pushed), and a destructor may hold a guard of
+        // its own with `Snapshot`s that the current local epoch protects. The collecting loop of
+        // `unpin` repins between passes, and `dispose_general_node` periodically.
         self.must_collect.set(true);
-        if self.collecting.get() {
-            self.repin_without_collect();
-        }
     }
 
     pub(crate) fn incr_advance(&self, guard: &Guard) {
